@@ -75,6 +75,13 @@ def features(j, diff):
             "has_includes": len(s["includes"]) > 0, "runs": j["runs"]}
 
 
+def distinct_trees(jsons):
+    seen = {}
+    for j in jsons:
+        seen.setdefault(json.dumps(j["spec"]["tree"], sort_keys=True), j["spec"]["tree"])
+    return list(seen.values())
+
+
 def hist(it):
     h = {}
     for x in it:
@@ -85,7 +92,8 @@ def hist(it):
 def ood_stream(ctx, tools, quick):
     """informational out-of-domain stream: never gates"""
     ood = {}
-    t, jo, err = pl.run_harness(ctx, tools, "ood", ["-mode", "ood", "-n", 15 if quick else 200, "-flagsets", 2])
+    t, jo, err = pl.run_harness(ctx, tools, "ood", ["-mode", "ood", "-n", 10 if quick else 200,
+                                                    "-flagsets", 1 if quick else 2, "-oraclesample", 1000000])
     if not err and t:
         b, _, err = pl.judge(ctx, t, tag="ood")
         if not err:
@@ -97,26 +105,8 @@ def ood_stream(ctx, tools, quick):
     return ood
 
 
-def run(ctx):
-    ctx.trusted = TRUSTED
-    ctx.assumptions = [
-        "directory entries have distinct names, none empty, '.' or '..' (a file system)",
-        "the input directory and every include directory exist and are directories; their names hold no '='",
-        "PackageNameFromPath succeeds for every directory holding a mapped proto (trees live in a Go module)",
-        "files declare go_package, if at all, in the canonical spelling `option go_package = \"…\";`",
-    ]
-    ctx.obligations_or_violation()
-    tools, log = pl.build_tools(ctx)
-    if not tools:
-        ctx.report({"unchecked": "build of harness / stub / gogenproto CLI against the current tree",
-                    "detail": log[-3000:]}, {"kind": "build"}, failing_input=False)
-        return
-    quick = ctx.tier == "quick"
-    runs = [("corpus", ["-mode", "corpus", "-flagsets", 8]),
-            ("random", ["-mode", "random", "-n", 90 if quick else 600, "-flagsets", 2 if quick else 8]),
-            ("edge", ["-mode", "edge", "-n", 54 if quick else 400, "-flagsets", 2 if quick else 8])]
-    terms, jsons = [], []
-    # corpus files first: minimised case descriptions kept from earlier disagreements / mutations
+def corpus_specs():
+    """minimised case descriptions kept from earlier disagreements / mutations / seeded changes"""
     cdir = os.path.join(vlib.VERIF, "corpus", "C20")
     cspecs = []
     if os.path.isdir(cdir):
@@ -126,57 +116,146 @@ def run(ctx):
                 sp = sp.get("spec", sp)
                 sp["kind"] = "corpus-file"
                 cspecs.append(sp)
-    if cspecs:
-        t, j, err = pl.run_specs(ctx, tools, "corpusfiles", cspecs)
+    return cspecs
+
+
+def streams(ctx, tools, plan, tagsuffix="", seed=None):
+    """run the harness streams of a plan; returns (terms, jsons, err)"""
+    terms, jsons = [], []
+    for tag, args in plan:
+        if tag == "corpusfiles":
+            cs = corpus_specs()
+            if not cs:
+                continue
+            t, j, err = pl.run_specs(ctx, tools, "corpusfiles" + tagsuffix, cs)
+        else:
+            t, j, err = pl.run_harness(ctx, tools, tag + tagsuffix, args, seed=seed)
         if err:
-            ctx.report({"unchecked": "harness run", "detail": err}, {"kind": "harness"}, failing_input=False)
-            return
+            return terms, jsons, err
         terms += t
         jsons += j
-        ctx.log("harness corpus files: %d cases" % len(t))
-    for tag, args in runs:
-        t, j, err = pl.run_harness(ctx, tools, tag, args)
-        if err:
-            ctx.report({"unchecked": "harness run", "detail": err}, {"kind": "harness"}, failing_input=False)
-            return
-        for x in j:
-            x["spec"]["includes"] = x["spec"].get("includes") or []
-        terms += t
-        jsons += j
-        ctx.log("harness %s: %d cases" % (tag, len(t)))
-    # the informational out-of-domain stream runs beside the judgement of the gating cases
-    pool = concurrent.futures.ThreadPoolExecutor(max_workers=1)
+        ctx.log("harness %s%s: %d cases" % (tag, tagsuffix, len(t)))
+    return terms, jsons, None
+
+
+def run(ctx):
+    ctx.trusted = TRUSTED
+    ctx.assumptions = [
+        "directory entries have distinct names, none empty, '.' or '..' (a file system)",
+        "the input directory and every include directory exist and are directories; their names hold no '='",
+        "PackageNameFromPath succeeds for every directory holding a mapped proto (trees live in a Go module)",
+        "files declare go_package, if at all, as a top-level `option go_package = \"…\";` in that spelling, "
+        "anywhere in the file",
+    ]
+    quick = ctx.tier == "quick"
+    # reports without a concrete failing input are held back: failing inputs come first and get
+    # the replay slots; a `no-failing-input-found` line is printed only if a widened run finds none
+    held = []
+    pool = concurrent.futures.ThreadPoolExecutor(max_workers=2)
+    obl_future = pool.submit(ctx.proof_obligations)
+    tools, log = pl.build_tools(ctx)
+    ok, detail = obl_future.result()
+    ctx.log("proof obligations:", "OK" if ok else "BROKEN", "-", detail.splitlines()[0])
+    if not ok:
+        held.append(({"unchecked": "theorem file Props/C20.v", "detail": detail}, {"kind": "proof_obligation"}))
+    if not tools:
+        pool.shutdown()
+        for rep, feat in held:
+            ctx.report(rep, feat, failing_input=False)
+        ctx.report({"unchecked": "build of harness / stub / gogenproto CLI against the current tree",
+                    "detail": log[-3000:]}, {"kind": "build"}, failing_input=False)
+        return
+    if quick:
+        # 8 built-in layouts under covering designs of the flag cube (31 runs), the corpus files,
+        # then one balanced flag setting per generated tree; real PackageNameFromPath on every 4th tree
+        plan = [("corpusfiles", None),
+                ("corpus", ["-mode", "corpus", "-flagsets", 4]),
+                ("random", ["-mode", "random", "-n", 70, "-flagsets", 1, "-oraclesample", 4]),
+                ("edge", ["-mode", "edge", "-n", 50, "-flagsets", 1, "-oraclesample", 4])]
+    else:
+        plan = [("corpusfiles", None),
+                ("corpus", ["-mode", "corpus", "-flagsets", 8]),
+                ("random", ["-mode", "random", "-n", 600, "-flagsets", 8]),
+                ("edge", ["-mode", "edge", "-n", 400, "-flagsets", 8])]
     ood_future = pool.submit(ood_stream, ctx, tools, quick)
-    bad, exact, err = pl.judge(ctx, terms, fn="proto_judge_sig", count="exact_and_hyps", shard=60)
+    terms, jsons, err = streams(ctx, tools, plan)
+    if err:
+        ood_future.result()
+        pool.shutdown()
+        for rep, feat in held:
+            ctx.report(rep, feat, failing_input=False)
+        ctx.report({"unchecked": "harness run", "detail": err}, {"kind": "harness"}, failing_input=False)
+        return
+    bad, exact, err = pl.judge(ctx, terms, fn="proto_judge_sig", count="exact_and_hyps", shard=40)
     ood = ood_future.result()
     pool.shutdown()
     if err:
+        for rep, feat in held:
+            ctx.report(rep, feat, failing_input=False)
         ctx.report({"unchecked": "in-kernel evaluation of the correspondence", "detail": err},
                    {"kind": "coq_eval"}, failing_input=False)
         return
+    n_main = len(jsons)
+    failing = [(i, sig) for i, sig in bad if sig % 4 == 1]
+    differs = [(i, sig) for i, sig in bad if sig % 4 != 1]
     # oracle cross-check (PackageNameFromPath vs go list vs module path + relative directory)
-    obad = [j for j in jsons if j.get("oracle_mismatch")]
-    seen = set()
-    for j in obad:
-        key = json.dumps(j["oracle_mismatch"])
-        if key in seen:
-            continue
-        seen.add(key)
-        ctx.report({"case": pl.view(j), "verdict": "PackageNameFromPath disagrees with go list / module "
-                    "path + relative directory for " + ", ".join(j["oracle_mismatch"]),
-                    "oracle": j["oracle"], "go_list": j["oracle_golist"]},
-                   {"kind": "oracle"}, failing_input=True)
-    for i, sig in bad:
+    obad, seen = [], set()
+    for j in jsons:
+        key = json.dumps(j.get("oracle_mismatch") or [])
+        if j.get("oracle_mismatch") and key not in seen:
+            seen.add(key)
+            obad.append(j)
+    widened = None
+    if (held or differs) and not failing and not obad:
+        # something broke but no case violates the specification yet: search wider before saying so
+        wplan = [("random", ["-mode", "random", "-n", 150, "-flagsets", 2, "-oraclesample", 4]),
+                 ("edge", ["-mode", "edge", "-n", 100, "-flagsets", 2, "-oraclesample", 4])]
+        wt, wj, werr = streams(ctx, tools, wplan, tagsuffix="-widened", seed=ctx.seed + 7919)
+        widened = {"cases": len(wj), "failing_inputs": 0}
+        if not werr and wt:
+            wbad, _, werr = pl.judge(ctx, wt, fn="proto_judge_sig", tag="widened", shard=40)
+            if not werr:
+                base = len(jsons)
+                terms += wt
+                jsons += wj
+                failing += [(base + i, sig) for i, sig in wbad if sig % 4 == 1]
+                widened["failing_inputs"] = len(failing)
+        ctx.log("widened search: %d further cases, %d failing input(s)" % (widened["cases"], widened["failing_inputs"]))
+    also = [rep for rep, _ in held] + (
+        [{"correspondence": "%d case(s) satisfy the specification but differ from the Coq model" % len(differs)}]
+        if differs else [])
+    # 1. failing inputs (verdict 1), minimised, first
+    for i, sig in failing:
         j = jsons[i]
         code, diff = pl.decode_sig(sig)
         if ctx.nreplay < 3:
             j = pl.minimise(ctx, tools, j, sig)
         rep = {"case": pl.view(j),
-               "verdict": {1: "recorded protoc invocation violates the specification",
-                           2: "recorded protoc invocation satisfies the specification but differs from the Coq model"}[code],
-               "differs_in": diff,
-               "replay_cmd": "./check C20 --replay <this file>"}
-        ctx.report(rep, features(j, diff), failing_input=(code == 1))
+               "verdict": "recorded protoc invocation violates the specification",
+               "differs_in": diff, "replay_cmd": "./check C20 --replay <this file>"}
+        if also and ctx.nreplay == 0:
+            rep["also_broken"] = also
+        ctx.report(rep, features(j, diff), failing_input=True)
+    for j in obad:
+        ctx.report({"case": pl.view(j), "verdict": "PackageNameFromPath disagrees with go list / module "
+                    "path + relative directory for " + ", ".join(j["oracle_mismatch"]),
+                    "oracle": j["oracle"], "package_name_from_path": j.get("oracle_package_name_from_path"),
+                    "go_list": j["oracle_golist"]}, {"kind": "oracle"}, failing_input=True)
+    # 2. only when no failing input exists after the widened run: the broken obligation / tie
+    if not failing and not obad:
+        for rep, feat in held:
+            ctx.report(rep, feat, failing_input=False)
+        for i, sig in differs:
+            j = jsons[i]
+            code, diff = pl.decode_sig(sig)
+            if ctx.nreplay < 3:
+                j = pl.minimise(ctx, tools, j, sig)
+            ctx.report({"case": pl.view(j),
+                        "verdict": "recorded protoc invocation satisfies the specification but differs from the Coq model",
+                        "differs_in": diff, "widened_search": widened,
+                        "replay_cmd": "./check C20 --replay <this file>"},
+                       features(j, diff), failing_input=False)
+    bad = failing + differs
 
     nt = [j for j in jsons if nontrivial(j)]
     ctx.cov.update({
@@ -204,7 +283,12 @@ def run(ctx):
         "tree_files": hist(j["n_files"] for j in jsons),
         "file_args": hist(sum(1 for a in j["argv"] if not a.startswith("-")) for j in jsons),
         "mapping_args": hist(min(n_mappings(j), 20) for j in jsons),
-        "oracle_dirs_checked": sum(len(j["oracle"]) for j in jsons),
+        "go_package_option_positions": hist(e.get("content") for t in distinct_trees(jsons) for e in t
+                                            if e["kind"] == "file" and e["path"].endswith(".proto")),
+        "oracle_dirs_checked_against_PackageNameFromPath": sum(
+            len(d) for d in {json.dumps(j["oracle_package_name_from_path"], sort_keys=True): j["oracle_package_name_from_path"]
+                             for j in jsons if j.get("oracle_package_name_from_path")}.values()),
+        "widened_search": widened,
         "oracle_mismatches": len(obad),
         "out_of_domain_informational": ood,
         "samples": [pl.view(j) for j in (jsons[1:2] + [j for j in jsons if j["kind"] != "corpus"][:2])],
